@@ -220,16 +220,17 @@ func (c *checker) firstSeededMember(idx, k string) bool {
 
 // sortKeyQuiet: did no other request rewrite the attribute the index is sorted by while ev ran?
 func (c *checker) sortKeyQuiet(k, idx string, self int, ev *event) bool {
-	if idx == "key" {
-		return true
-	}
 	for _, w := range c.w[k] {
 		if !overlaps(w.start, w.end, ev.Start, ev.End) {
 			continue
 		}
+		// a Set may be creating the record (it enters every index somewhere during the claim)
 		if w.kind == "set" || (idx == "exp" && w.setsExp) {
 			return false
 		}
+	}
+	if idx == "key" {
+		return true
 	}
 	if idx == "exp" {
 		for i, o := range c.evs {
